@@ -883,7 +883,19 @@ func membersThroughPush(p *core.Program, r *core.Report, rule string) {
 					}
 				}
 				follow(c.Value())
-				r.Check(bad == "", rule, key, p.Pos(c.Pos()), true, "the member reaches only type assertions, Push, nil tests and error values", bad+": Push's layout/stride check is bypassed")
+				// a member loop merged into a helper stands for one loop per place that uses the helper
+				keys := []string{key}
+				if fn != read {
+					if us := helperUsers(p, topLevel(fn)); len(us) > 1 {
+						keys = nil
+						for _, u := range us {
+							keys = append(keys, key+"<-"+u)
+						}
+					}
+				}
+				for _, k := range keys {
+					r.Check(bad == "", rule, k, p.Pos(c.Pos()), true, "the member reaches only type assertions, Push, nil tests and error values", bad+": Push's layout/stride check is bypassed")
+				}
 			}
 		}
 	}
@@ -902,8 +914,11 @@ func calledFrom(p *core.Program, from, target *ssa.Function, rel string) bool {
 		}
 		seen[f] = true
 		for _, c := range eng.Calls(f) {
-			if g := eng.StaticCallee(c); g != nil && core.FnPkgPath(g) == mod+"/"+rel {
-				if walk(g, d+1) {
+			if g := eng.StaticCallee(c); g != nil {
+				if o := g.Origin(); o != nil {
+					g = o // an instantiation of a generic helper
+				}
+				if core.FnPkgPath(g) == mod+"/"+rel && walk(g, d+1) {
 					return true
 				}
 			}
@@ -932,4 +947,27 @@ func reachesFn(from, target *ssa.Function) bool {
 		}
 	}
 	return false
+}
+
+// helperUsers: the places that call fn (or one of its instantiations) statically, as caller#n.
+func helperUsers(p *core.Program, fn *ssa.Function) []string {
+	var out []string
+	for _, g := range p.SrcFuncs(true) {
+		n := 0
+		for _, c := range eng.Calls(g) {
+			callee := eng.StaticCallee(c)
+			if callee == nil {
+				continue
+			}
+			if o := callee.Origin(); o != nil {
+				callee = o
+			}
+			if callee == fn {
+				n++
+				out = append(out, fmt.Sprintf("%s#%d", short(g), n))
+			}
+		}
+	}
+	sort.Strings(out)
+	return out
 }
